@@ -1,2 +1,2 @@
 from props import c04_pass
-OBLIGATIONS = [c04_pass.obligation(k) for k in ("R", "RGR", "RPR", "RKGR", "RGGR", "RPGR", "RkGR")]
+OBLIGATIONS = [c04_pass.obligation(k) for k in ("R", "RGR", "RPR", "RKGR", "RGGR", "RPGR", "RkGR")] + [c04_pass.obligation("RGR", looseness=l) for l in (1, -1, 2)] + [c04_pass.obligation("R", looseness=l) for l in (1, -1)]
